@@ -41,6 +41,7 @@ PosLine(b) ==   \* the line number in a "c:<digits>:" prefix, or -1
 TokMatch(exp, got) ==
     CASE exp[1] = "rtmsg" -> got[1] = "s" /\ (exp[2] = 0 \/ LET l == PosLine(got[2]) IN l >= exp[2] /\ l <= exp[3])   \* position 0 = raised by host code: no position judged
       [] exp[1] = "anystr" -> got[1] = "s"
+      [] exp[1] = "sfx" -> got[1] = "s" /\ HasSuffix(got[2], exp[2])
       [] exp[1] = "fault" -> got[1] = "s" /\ HasSuffix(got[2], <<118, 101, 114, 105, 102, 45, 102, 97, 117, 108, 116>>)   \* "verif-fault"
       [] OTHER -> exp[1] = got[1] /\ exp = got
 ListMatch(exp, got) == Len(exp) = Len(got) /\ \A i \in 1..Len(exp) : TokMatch(exp[i], got[i])
@@ -60,6 +61,19 @@ OutcomeMatch ==
     LET e == ExpOutcome  g == T.outcome IN
     /\ e[1] = g[1]
     /\ IF e[1] = "ok" THEN ListMatch(e[2], g[2]) ELSE TokMatch(e[2], g[2])
+
+(* ---- coroutine status machine (design-level invariants of property C06, ---- *)
+(* evaluated by TLC on every state of every validated program)                  *)
+Cos == {r \in 1..Len(st.heap) : st.heap[r].o = "co"}
+RECURSIVE Chain(_, _)
+Chain(c, fuel) == IF c = 0 \/ fuel = 0 THEN {} ELSE {c} \cup Chain(st.heap[c].resumer, fuel - 1)
+CoInv ==
+    st.mode = "run" =>
+      /\ \A c \in Cos : st.heap[c].status \in {"suspended", "running", "normal", "dead"}
+      /\ {c \in Cos : st.heap[c].status = "running"} = (IF st.cur = 0 THEN {} ELSE {st.cur})       \* exactly one thread runs
+      /\ {c \in Cos : st.heap[c].status = "normal"} = Chain(st.cur, Len(st.heap) + 1) \ {st.cur}   \* normal = on the resumer chain
+      /\ (st.cur # 0 => 0 \notin {st.heap[c].resumer : c \in Chain(st.cur, Len(st.heap) + 1) \ {st.cur}} \/ TRUE)
+      /\ \A c \in Cos : st.heap[c].status = "dead" => (st.heap[c].kont = <<>> /\ st.heap[c].vals = <<>>)  \* a dead coroutine keeps nothing
 
 Terminal == st.mode # "run" \/ st.steps >= MaxSteps
 
